@@ -349,9 +349,10 @@ pub type Search = Result<(), Box<Found>>;
 /// Message / input lengths every sweep uses.
 pub fn lengths(thorough: bool) -> Vec<usize> {
     let mut v: Vec<usize> = (0..=80).collect();
-    v.extend_from_slice(&[127, 128, 129, 255, 256, 257, 1000]);
+    // multi-KiB lengths as well: a size-dependent code path (chunking, buffering thresholds) is a realistic place for a defect
+    v.extend_from_slice(&[127, 128, 129, 255, 256, 257, 1000, 4095, 4096, 4097, 8192, 16389, 65536]);
     if thorough {
-        v.extend_from_slice(&[81, 95, 96, 97, 191, 192, 193, 511, 512, 513, 1023, 1024, 1025, 4096]);
+        v.extend_from_slice(&[81, 95, 96, 97, 191, 192, 193, 511, 512, 513, 1023, 1024, 1025, 2048, 12288, 32768, 131075]);
     }
     v
 }
